@@ -396,10 +396,13 @@ func (e *exec) finish(c *call, how int) {
 // check is the liveness oracle, evaluated at quiescence.
 func (e *exec) check(where string) {
 	waiting, expired := e.waiting()
-	if expired > 0 {
-		e.badf("%s: %d NewStream call(s) still blocked after their deadline passed", where, expired)
-	}
 	parked := e.numParked()
+	// A goroutine parked by the harness at the hook cannot notice its deadline;
+	// the harness does not know which calls are parked, so up to `parked`
+	// expired calls are excused.
+	if expired > parked {
+		e.badf("%s: %d NewStream call(s) still blocked after their deadline passed (%d goroutine(s) parked by the harness)", where, expired, parked)
+	}
 	if e.closed || e.drained {
 		if waiting-parked > 0 && e.closed {
 			e.badf("%s: %d NewStream call(s) still blocked after the transport was closed", where, waiting-parked)
@@ -424,7 +427,7 @@ func (e *exec) check(where string) {
 type outcome struct {
 	bad      []string
 	led      []string
-	sig      string
+	half     []string // known shape c13.half_closed_stream_not_counted
 	classes  map[string]bool
 	setupErr error
 	nCalls   int
@@ -515,6 +518,7 @@ func runPlan(t *testing.T, p Plan) (out outcome) {
 		rig.Close()
 		out.bad = e.bad
 		out.led = e.led.Violations("stream.id", "stream.maxconcurrent")
+		out.half = e.led.Violations("stream.halfclosed_over_limit")
 		out.nCalls = len(e.calls)
 		if e.parkedEver > 0 {
 			e.class("parked_in_check_then_wait_window")
@@ -532,6 +536,8 @@ func runPlan(t *testing.T, p Plan) (out outcome) {
 	}
 	return out
 }
+
+const sigHalfClosed = "c13.half_closed_stream_not_counted"
 
 const rule = "plans of <=30/200 ops against a real http2Client and a scripted h2peer server: NewStream calls on their own goroutines (25% with a 1..5000 ms virtual deadline), " +
 	"finishing 1-3 admitted streams in one of 6 ways (client cancel, server RST, half-close + trailers, trailers + RST(NO_ERROR), trailers only, trailers while the client's END_STREAM is flow-control blocked), " +
@@ -554,6 +560,16 @@ func run(t *testing.T, p Plan) vk.Result {
 	v := append(out.led, out.bad...)
 	if len(v) > 0 {
 		r := vk.Bad("%d violation(s), first: %s", len(v), strings.Join(v[:min(3, len(v))], " || ")).With(cl...)
+		return r
+	}
+	if len(out.half) > 0 {
+		// Known shape: the server ended a stream whose client END_STREAM is still
+		// queued behind flow control; the client frees the stream's quota without
+		// END_STREAM or RST_STREAM ever reaching the wire. Only this shape gets the
+		// signature (the ledger reports a plain stream.maxconcurrent for any excess
+		// that remains when such streams are not counted).
+		r := vk.Bad("%d violation(s), first: %s", len(out.half), out.half[0]).With(append(cl, "known_half_closed_over_limit")...)
+		r.Sig = sigHalfClosed
 		return r
 	}
 	nt := out.classes["limit_lowered_below_open_with_waiter"] || (out.classes["waiter_blocked_at_limit"] && (out.classes["finish_with_waiter"] || out.classes["raise_with_waiters"]))
